@@ -1,17 +1,25 @@
 """C14  Batch API access control.
 
 Every route registered in batch.front_end.front_end.routes (enumerated from the RouteTableDef at run time)
-x callers {anonymous, unknown bearer token, inactive member/owner, u1, u2, active user in no project,
-developer in no project, the `auth` service account} x targets (batches: u1's in the shared project, u2's in a
-project u1 is not in, a deleted one, u2's in the shared project, the inactive user's, a nonexistent id;
-billing projects: shared, foreign, closed, nonexistent) x a small table of request bodies per route (fresh
-idempotency token / the token of an existing update, which every project member can read from GET batch).
+x callers {anonymous, unknown bearer token, inactive user (member and owner), u1, u2 (bearer and browser-session
+flavour), active user in no project, developer in no project, the `auth` service account}
+x targets (batches: 1 u1's in the shared project bp, 2 u2's in bp2 where u1 is not a member, 3 u1's deleted,
+4 u2's in bp, 5 the inactive user's, 6 u1's with update 1 staged but not committed, 99 nonexistent;
+billing projects: bp, bp2, bpc (closed), nope (nonexistent))
+x a small table of request variants per route (fresh idempotency token / replay of the batch token that
+GET batch hands to every project member / replay of the token of an open update).
 
-The REAL handler with its REAL decorator stack is called (through the real aiohttp UrlDispatcher built from the
-route table and the csrf / frozen middlewares of run()); authentication goes through the real
-AuthServiceAuthenticator whose auth-service HTTP call is answered by a fake; every SQL statement is executed
-by minisql on the seeded world.  Oracle = the access matrix of the statement, keyed by a route class derived
-from method + path; a route that fits no class is itself a violation.
+The REAL handler with its REAL decorator stack is called: the request is resolved by the real aiohttp
+UrlDispatcher built from the route table, passes check_csrf_token and unavailable_if_frozen (the middlewares
+of run()) and reaches the registered handler; authentication goes through the real AuthServiceAuthenticator
+whose only outside call (auth service /userinfo) is answered by a fake; every SQL statement is executed by
+minisql on the seeded world.  Oracle = the access matrix of the statement, keyed by a route class derived from
+method + path template only; a route that fits no class (or has no request in the table) is itself a violation:
+  * caller outside the class: must get an error (4xx/5xx or the login redirect) AND the full database dump, the
+    file store and the outbound-call log (driver / workers) must be unchanged;
+  * caller squarely inside the class on an existing target: must not be refused for authentication /
+    authorisation (business 4xx with a reason are fine);
+  * listings / reads: every batch, billing project or spending row shown must be one the caller may read.
 """
 import json
 import re
@@ -813,8 +821,12 @@ ASSUME = [
     '(plotly, pandas) are replaced by no-ops; the file store always has a log / JVM profile and never a resource-usage frame',
     'an authorisation refusal of an insider is recognised as 401, a redirect to the login page, or a 403/404 without a specific reason; '
     '4xx answers carrying a business reason are not refusals',
-    'idempotency tokens of existing updates are treated as known to the caller (the batch token, which is also the token of update 1, is '
-    'returned to every billing-project member by GET batch)',
+    'replayed idempotency tokens: the "api-token" variants replay only what GET /api/v1alpha/batches/{id} returned to the same caller a moment '
+    'before (the batch token, which create / create-fast also use as the token of update 1); the "known-token" variant assumes the caller '
+    'knows the token of another open update (never shown by the API) -- examples of the first kind are preferred when reporting',
+    'minisql resolves column names lazily: the broken `NOT deleted` in close_batch (no such column in job_groups) raises 1054 only when the '
+    'preceding `user = %s` conjunct holds, MySQL would raise it for every caller; either way a non-owner is refused (404 here, 500 there)',
+    'non-HTTP exceptions raised by a handler count as an error answer (aiohttp turns them into 500)',
 ]
 
 
